@@ -56,12 +56,23 @@ def confirm_moment(ob, type_map=None):
         return None
     progs = moment_programs(ty, acc, with_merge=True)
     results = replay.run_programs(progs)
+    want = ((ob.cex or {}).get("class") or {}).get("accessor")
+    focus = [a for a in acc if want and _key(a).split("(")[0] == want]
+    passes = [focus, acc] if focus else [acc]
+    for sel in passes:
+        r = _scan(progs, results, sel, acc)
+        if r is not None and (r.get("confirmed_on_real_code") or r.get("replay_error")):
+            return r
+    return {"confirmed_on_real_code": False, "note": "%d short histories agree with the exact statistics" % len(progs)}
+
+
+def _scan(progs, results, sel, acc):
     for prog, res in zip(progs, results):
         if res.get("error"):
             return {"replay_error": res["error"], "raw": res.get("raw", "")[-400:]}
         xs = [Fraction(x) for x in oracle.flatten_moment_prog(prog)]
         exp = oracle.moment_stats(xs)
-        keys = [_key(a) for a in acc]
+        keys = [_key(a) for a in sel]
         panics_expected = any(isinstance(exp.get(k), tuple) for k in keys)
         bad = oracle.compare(res, exp, keys) if not res["panic"] else []
         if res["panic"] and not panics_expected:
@@ -72,4 +83,4 @@ def confirm_moment(ob, type_map=None):
             return {"program": prog, "expected": {k: e for k, e, a in bad}, "actual": {k: a for k, e, a in bad},
                     "panic": res["panic"], "confirmed_on_real_code": True,
                     "note": "found by executing %d short histories on the real crate against exact rational statistics" % len(progs)}
-    return {"confirmed_on_real_code": False, "note": "%d short histories agree with the exact statistics" % len(progs)}
+    return None
